@@ -475,6 +475,23 @@ def check(run):
             c = gen_until(r, comp, generic=generic)
             if c is not None:
                 tie_cases.append([c])
+    # components built on the optimal rotation: the driver finds q with its own Jacobi iteration, the model maps q to the value
+    for comp in G.MODELLED_REF:
+        for k in range(8 * scale):
+            c = gen_ref_case(r, comp)
+            if c is None:
+                continue
+            q = c["q0"]
+            if comp == "eulerTheta" and abs(2 * (q[0] * q[2] - q[3] * q[1])) > 0.95:
+                continue
+            if comp in ("eulerPhi", "eulerPsi", "tilt", "spinAngle") and abs(2 * (q[0] * q[2] - q[3] * q[1])) > 0.98:
+                continue
+            c["tol"] = 1e-7
+            tie_cases.append([c])
+    for k in range(6 * scale):
+        c = gen_until(r, "distancePairs", generic=(k % 2 == 1))
+        if c is not None:
+            tie_cases.append([c])
     # combined variables: sum c_i q_i^n_i of scalar components on one system
     SCAL = [c for c in G.MODELLED if c not in G.VECTOR_VALUED]
     for k in range(30 * scale):
@@ -680,7 +697,7 @@ def judge_tie(run, cs, iline, iout, mline, mout):
         run.violation("value:%s:not-finite" % cs[0]["comp"], "value of %s is not finite (%s) away from any singular geometry" % (name, iout[:200]),
                       replay_obj("tie", [iline], {"model_lines": [mline], "cases": cs}))
         return
-    if not vclose(a, b, TOL, comp_period(cs)):
+    if not vclose(a, b, cs[0].get("tol", TOL), comp_period(cs)):
         run.mismatch("value:" + (cs[0]["comp"] if len(cs) == 1 else "combination"), {"impl_line": iline, "model_line": mline, "cases": cs}, iout, mout)
         # the model is the independent implementation of the documented definition: the disagreement IS the failing input
         run.violation("value:%s:definition" % (cs[0]["comp"] if len(cs) == 1 else "combination"),
